@@ -7,6 +7,8 @@ func Scenarios(property string, thorough bool) []driver.Scenario {
 	switch property {
 	case "C25":
 		return c25Scenarios(thorough)
+	case "C26":
+		return c26Scenarios(thorough)
 	case "C27":
 		return c27Scenarios(thorough)
 	case "C34":
